@@ -37,7 +37,8 @@ def run_check(prop, tier, verif_seed, workers=16, runs=None, out=sys.stdout, wri
     if os.environ.get('DFSIM_RUNS'):
         cfg['runs'] = int(os.environ['DFSIM_RUNS'])
     n = cfg['runs']
-    deadline = t0 + cfg['wall']
+    # DFSIM_WALL_SCALE shortens / stretches the batch wall cap of a tier (soaks on a shared machine); run seeds do not depend on it
+    deadline = t0 + cfg['wall'] * float(os.environ.get('DFSIM_WALL_SCALE') or 1.0)
     tasks = [{'i': i, 'seed': seeds.run_seed(verif_seed, prop.ID, tier, i)} for i in range(n)]
     print('dfsim %s tier=%s VERIF_SEED=%d runs=%d workers=%d' % (prop.ID, tier, verif_seed, n, workers), file=out)
     out.flush()
